@@ -21,8 +21,8 @@ from symx import Symx, Budget, K, render, lit_truth
 
 META = {
     'level': 'other',
-    'decides': 'for all 64 (bundle status, transition status) pairs: reachability of a regular arm, the recorded previous status, the wipe flag, the kind of info revert and the new status; the shape of BundleAccount::revert',
-    'does_not_decide': 'the per-slot values recorded over several merges (history dependent), revert_latest / to_plain_state_reverts over whole bundles',
+    'decides': 'for all 64 (bundle status, transition status) pairs: reachability of a regular arm, the recorded previous status, the wipe flag, the kind of info revert and the new status; the shape of BundleAccount::revert; what happens to the bundle account\'s slots per pair (emptied / kept, no pruning); that revert slot maps are only extended with or_insert; from which storage map and which StorageSlot field every revert value is taken; the truth table of AccountRevert::is_empty; the per-path skeleton of revert_latest, to_plain_state_reverts and add_transitions; the CacheAccount operations that produce the transitions (C15 R1/R3)',
+    'does_not_decide': 'the per-slot values recorded over several merges as a function of the whole history (only their provenance per merge is decided)',
     'explanation': 'Partial evaluation of update_and_create_revert with both statuses fixed (constructor helpers inlined); reachable pairs from the transitive closure of the extracted status tables under the creation precondition.',
 }
 
